@@ -24,6 +24,23 @@ func cmdC10(r *RNG, n int, e *Emitter, args []string) {
 			x += int64(S * (0.6 + r.Float()))
 			y += int64(S * (r.Float() - 0.5) * 1.5)
 		}
+		if len(line) >= 3 && r.Intn(6) == 0 {
+			// a sharp interior vertex whose two edges mirror each other in the horizontal (or vertical) line through
+			// it: the join's bisector is exactly axis-parallel while neither edge is
+			k := 1 + r.Intn(len(line)-2)
+			v := line[k]
+			a, b := int64(S*(2+3*r.Float())), int64(S*(0.2+0.6*r.Float()))
+			if r.Bool() {
+				line[k-1], line[k+1] = clip.Point64{X: v.X - a, Y: v.Y - b}, clip.Point64{X: v.X - a, Y: v.Y + b}
+			} else {
+				line[k-1], line[k+1] = clip.Point64{X: v.X - b, Y: v.Y - a}, clip.Point64{X: v.X + b, Y: v.Y - a}
+			}
+			line = line[k-1 : k+2]
+			if r.Bool() { // lead-in and lead-out so that the vertex is far from the end points
+				line = append(append(clip.Path64{{X: line[0].X - int64(3*S), Y: line[0].Y - int64(S)}}, line...), clip.Point64{X: line[2].X - int64(3*S), Y: line[2].Y + int64(S)})
+			}
+			e.Count("shape=mirrored-spike")
+		}
 		if r.Intn(5) == 0 {
 			// a loop: the last point repeats the first (either direction, sometimes with a further duplicate)
 			line = genStarShaped(r, 0, 0, 0.6*S, 1.2*S, 3+r.Intn(5))
